@@ -5,8 +5,10 @@ V = os.path.dirname(os.path.dirname(os.path.abspath(__file__)))
 base = subprocess_out = None
 import subprocess
 head = subprocess.run(["git", "-C", "/repo", "rev-parse", "--short", "HEAD"], capture_output=True, text=True).stdout.strip()
-for ID in sorted(os.listdir("/tmp/seed2")):
-    d = os.path.join("/tmp/seed2", ID, "SEED")
+ROOT = sys.argv[1] if len(sys.argv) > 1 else "/tmp/seed2"
+PREFIX = sys.argv[2] if len(sys.argv) > 2 else "r2"
+for ID in sorted(os.listdir(ROOT)):
+    d = os.path.join(ROOT, ID, "SEED")
     if not os.path.isdir(d):
         continue
     for v in ("a", "b"):
@@ -16,7 +18,7 @@ for ID in sorted(os.listdir("/tmp/seed2")):
             continue
         t = open(log).read()
         ok = "demo_without_patch rc=0" in t and "suite_with_patch rc=0" in t and re.search(r"demo_with_patch rc=(?!0)", t)
-        name = "r2-%s-%s" % (ID, v)
+        name = "%s-%s-%s" % (PREFIX, ID, v)
         dst = os.path.join(V, "seeded", name)
         if not ok:
             print(name, "NOT CONFIRMED:", t.replace("\n", " | ")[:200])
@@ -25,7 +27,7 @@ for ID in sorted(os.listdir("/tmp/seed2")):
         for f in ("patch.diff", "demo.rs", "notes.md", "confirm.log"):
             shutil.copy(os.path.join(sd, f), os.path.join(dst, f))
         notes = open(os.path.join(sd, "notes.md")).read()
-        meta = {"id": name, "property": ID, "variant": "small in-place edit" if v == "a" else "refactoring-shaped change",
+        meta = {"id": name, "property": ID, "variant": "small in-place edit" if (v == "a" or PREFIX == "r3") else "refactoring-shaped change",
                 "base_commit": head,
                 "needs_to_manifest": " ".join(notes.split())[:900],
                 "confirmed_by": ["git apply patch.diff on a clean worktree of %s" % head,
